@@ -17,7 +17,9 @@ Driver of C14: runs the collider state machine on an op sequence.
   answered from the trace; a negative answer for a mesh means KeyError)
 
 Output: `ok <r_0> | <r_1> | …` with `r_k = <status> ; <value> ; <cached fields after the op>`,
-`status` = `ok b<branch>` or `err <Err>`; or `err <Err>` if the constructor raises.
+`status` = `ok` or `err <Err>` (the model's case analysis is class × operation × outcome of the
+typed call, so class/op/status *is* the branch id the harness histograms); `r_0` is the state
+after construction; or `err <Err>` if the constructor raises.
 The support/AABB kernels of the closed-form shapes are C03/C04's business: they are instantiated by
 placeholders here and only the status of such calls is printed (value `-`).
 -/
